@@ -34,7 +34,7 @@ func (f fieldURI) isEmpty() bool {
 
 func (f *fieldURI) push(kind fieldURIComponentKind, field string, index uint64) {
 	f.Parts = append(f.Parts, fieldURIComponent{
-		kind:      0,
+		kind:      kind,
 		fieldName: field,
 		index:     index,
 	})
@@ -114,13 +114,19 @@ func deepCastRecursive(val Value, typ ast.Type, span errors.Span, allowCasts boo
 
 			newUri := fieldURI.clone()
 			newUri.push(componentKindOptionInner, "", 0)
-			innerCast, i := deepCastRecursive(valInner, typInner, span, allowCasts, fieldURI)
+			innerCast, i := deepCastRecursive(valInner, typInner, span, allowCasts, newUri)
 			if i != nil {
 				return nil, i
 			}
 			return NewValueOption(innerCast), nil
 		}
-		return NewValueOption(&val), nil
+
+		// A `T` is admitted as a `?T`: the value itself has to be admitted as the option's inner type.
+		innerCast, i := deepCastRecursive(val, typ.(ast.OptionType).Inner, span, allowCasts, fieldURI)
+		if i != nil {
+			return nil, i
+		}
+		return NewValueOption(innerCast), nil
 	}
 
 	switch val.Kind() {
